@@ -86,6 +86,9 @@ ORDINARY = ["div", "span", "section", "article", "aside", "nav", "header", "foot
             "ul", "summary", "x-foo", "abbr", "cite", "q", "label", "bdi", "data", "time", "var", "kbd", "samp",
             "sub", "sup", "mark", "ins", "del", "canvas", "audio", "video", "map", "output", "progress", "meter",
             "slot", "dfn", "legend", "picture", "custom-el"]
+# formatting elements other than a / nobr (whose *start* tags close an open element of the same name): a tree of them
+# serializes to properly nested tags, which the adoption agency closes one by one without moving anything
+FORMATTING = ["b", "big", "code", "em", "font", "i", "s", "small", "strike", "strong", "tt", "u"]
 NSS = ["h", "s", "m", "0", "u 75 72 6e 3a 78"]
 ATTR_NSS = ["0", "x", "n", "l", "h", "s", "m", "u 75 72 6e 3a 78"]
 
@@ -270,7 +273,7 @@ def is_ordinary_forest(ch):
             prev_text = True
             continue
         prev_text = False
-        if c[0] != "E" or c[1] != "h" or c[2] not in ORDINARY:
+        if c[0] != "E" or c[1] != "h" or (c[2] not in ORDINARY and c[2] not in FORMATTING):
             return False
         seen = set()
         for (ns, _p, local, value) in c[3]:
@@ -641,7 +644,8 @@ def gen_random(cases, rng, n):
 NAME_ALPHA = "abcxyz-_:.0123456789é€&;#@*"
 
 
-def rnd_ordinary_forest(rng, depth):
+def rnd_ordinary_forest(rng, depth, vocab=None):
+    vocab = vocab or ORDINARY
     out = []
     prev_text = False
     for _ in range(rng.choice([0, 1, 2, 3, 4]) if depth > 0 else rng.choice([0, 1])):
@@ -658,7 +662,7 @@ def rnd_ordinary_forest(rng, depth):
                     continue
                 seen.add(n)
                 attrs.append(("0", None, n, rnd_text(rng, 0, 10, ["\t", "&amp", "&quot;", "&#x22;", "\n"])))
-            out.append(E("h", rng.choice(ORDINARY), attrs, rnd_ordinary_forest(rng, depth - 1)))
+            out.append(E("h", rng.choice(vocab), attrs, rnd_ordinary_forest(rng, depth - 1, vocab)))
             prev_text = False
     return out
 
@@ -668,8 +672,28 @@ def gen_ordinary(cases, rng, n):
         t = E("h", "div", [], rnd_ordinary_forest(rng, 3))
         assert is_ordinary_forest(t[4])
         cases.append((mk_tree(rng.choice(["I", scope_n("h", "div")]), rng.randint(0, 1), 0, t), "ordinary"))
+    # formatting elements: nested, repeated names (Noah's ark: four and more identical ones), content after the inner one
+    for _ in range(n // 2):
+        vocab = [rng.choice(FORMATTING) for _ in range(rng.randint(1, 3))] * 3 + ["div", "span", "p"[:0] or "section"]
+        t = E("h", "div", [], rnd_ordinary_forest(rng, 4, vocab))
+        assert is_ordinary_forest(t[4])
+        cases.append((mk_tree(rng.choice(["I", scope_n("h", "div")]), rng.randint(0, 1), 0, t), "ordinary-fmt"))
+    for f in FORMATTING:
+        for g in (f, "i" if f != "i" else "b"):
+            for k in (1, 2, 3, 4, 5):
+                inner = [("T", "x")]
+                for j in range(k):
+                    inner = [E("h", g if j % 2 else f, [("0", None, "c", "n%d" % j)] if j != 2 else [], inner), ("T", "y%d" % j)]
+                t = E("h", "div", [], [E("h", f, [("0", None, "c", "outer")], inner), ("T", "z")])
+                assert is_ordinary_forest(t[4])
+                cases.append((mk_tree("I", 1, 0, t), "ordinary-fmt"))
+                same = [("T", "x")]
+                for j in range(k):
+                    same = [E("h", f, [], same), E("h", "div", [], [("T", "d%d" % j)])]
+                t = E("h", "div", [], [E("h", f, [], same), ("T", "z")])
+                cases.append((mk_tree("I", 0, 0, t), "ordinary-fmt"))
     # every ordinary name once, with the boundary strings
-    for name in ORDINARY:
+    for name in ORDINARY + FORMATTING:
         t = E("h", "div", [], [E("h", name, [("0", None, "a", '<>&" \'')], [("T", "<>&\" '")]), ("T", "t")])
         cases.append((mk_tree("I", 1, 0, t), "ordinary"))
     for c in BOUNDARY:
